@@ -442,8 +442,33 @@ def minkowski_rules(db, chk, cfg, rule="MINK"):
         for fn in db.find(q):
             calls = [x for x in walk(fn.body) if x.get("kind") == "CallExpr" and db.callee(x)[0] == "Minkowski"]
             unions = [x for x in walk(fn.body) if x.get("kind") == "CallExpr" and db.callee(x)[0] == "Union"]
+            closed_nm = fn.params[2]["name"] if len(fn.params) >= 3 else "isClosed"
             ok = len(calls) == 1 and canon(db.call_args(calls[0])[2]) == want_sum and len(unions) == 1 and canon(db.call_args(unions[0])[1]) == "NonZero" \
-                and canon(db.call_args(calls[0])[3]) == "isClosed"
+                and canon(db.call_args(calls[0])[3]) == closed_nm
+            if not calls:
+                # an overload may delegate to another overload of the *same* operation (itself judged here), handing on its operands
+                # in their roles and the caller's isClosed; a further union must still be NonZero
+                dele = [x for x in walk(fn.body) if x.get("kind") == "CallExpr" and db.callee(x)[0] in ("MinkowskiSum", "MinkowskiDiff")
+                        and db.callee_func(x) is not None and db.callee_func(x).id != fn.id]
+                if len(dele) == 1 and len(fn.params) >= 3:
+                    a = db.call_args(dele[0])
+                    p0, p1 = fn.params[0]["name"], fn.params[1]["name"]
+                    src = {}
+                    for x in walk(fn.body):
+                        if x.get("kind") == "VarDecl" and x.get("name"):
+                            init = [c for c in kids(x) if isinstance(c, dict) and c.get("kind")]
+                            if init:
+                                src[x["name"]] = {y.get("referencedDecl", {}).get("name") for y in walk(init[-1]) if y.get("kind") == "DeclRefExpr"} & {p0, p1}
+
+                    def _roles(e):
+                        out = set()
+                        for y in walk(e):
+                            if y.get("kind") == "DeclRefExpr":
+                                nm = y.get("referencedDecl", {}).get("name")
+                                out |= {nm} if nm in (p0, p1) else src.get(nm, set())
+                        return out
+                    ok = db.callee(dele[0])[0] == q and len(a) >= 3 and _roles(a[0]) == {p0} and _roles(a[1]) == {p1} and \
+                        canon(a[2]) == closed_nm and all(canon(db.call_args(u)[1]) == "NonZero" for u in unions)
             n += 1
             chk.instance(rule + ".union", {"function": fn.qual, "sig": fn.sig[:50], "cfg": cfg}, ok=ok)
             if not ok:
